@@ -46,7 +46,43 @@ def mentions_guard(res):
     return any(not isinstance(p, str) and not p.is_zero() and "guard" in p.symbols() for _path, cases in res for _d, p, _v in cases)
 
 
-def site_results(fi, call, premises=(), honest_premise=True, guard_value=None):
+def param_domains(repo, fi):
+    """{parameter: sorted small integers} for a private helper every call of which passes a masked value (`E & 3`, `E % 4`) or a
+    literal for that parameter: the finite set of values the parameter can take, whatever E is"""
+    if not fi.name.startswith("_") or fi.name.startswith("__"):
+        return {}
+    calls = []
+    for m in repo.modules.values():
+        for c in ast.walk(m.tree):
+            if isinstance(c, ast.Call) and norm(c.func).split(".")[-1] == fi.name and not c.keywords:
+                calls.append(c)
+    params = [p_ for p_ in fi.params if p_ not in ("self", "cls")]
+    if not calls:
+        return {}
+    out = {}
+    for i, p_ in enumerate(params):
+        dom = set()
+        for c in calls:
+            if i >= len(c.args):
+                dom = None
+                break
+            a = c.args[i]
+            if isinstance(a, ast.Constant) and isinstance(a.value, int) and not isinstance(a.value, bool) and 0 <= a.value < 16:
+                dom.add(a.value)
+            elif isinstance(a, ast.BinOp) and isinstance(a.op, ast.BitAnd) and isinstance(a.right, ast.Constant) and a.right.value in (1, 3, 7, 15):
+                dom.update(range(a.right.value + 1))
+            elif isinstance(a, ast.BinOp) and isinstance(a.op, ast.Mod) and isinstance(a.right, ast.Constant) and isinstance(a.right.value, int) \
+                    and 0 < a.right.value <= 16:
+                dom.update(range(a.right.value))
+            else:
+                dom = None
+                break
+        if dom:
+            out[p_] = sorted(dom)
+    return out
+
+
+def site_results(fi, call, premises=(), honest_premise=True, guard_value=None, bind=None):
     """honest_premise=False: the site emits unconditionally and unguarded (add_constraint_unsafe called directly), so
     the identity must hold on EVERY path and for either value of the active guard (LinComb.ONE is then the guard wire).
     guard_value "none" / 1 / 0: the scenario in which no guard is installed / the active guard has that value ("none" and 1 go
@@ -58,6 +94,8 @@ def site_results(fi, call, premises=(), honest_premise=True, guard_value=None):
     for path in paths:
         def assumptions(path=path):
             env = base_env(fi)
+            for k_, v_ in (bind or {}).items():
+                env[k_] = P.const(v_)
             if honest_premise:
                 env["LinComb.ONE"] = P.const(1)
             if guard_value == "none":
@@ -169,6 +207,16 @@ def check(repo, rep, tier):
             res = site_results(fi, call, PREMISES.get(fi.fq, ()), honest_premise=True, guard_value="none") + \
                 site_results(fi, call, PREMISES.get(fi.fq, ()), honest_premise=True, guard_value=1) + \
                 site_results(fi, call, PREMISES.get(fi.fq, ()), honest_premise=False, guard_value=0)
+        doms = param_domains(repo, fi) if any(not isinstance(p_, str) and not p_.is_zero() for _pa, cases in res for _d, p_, _v in cases) else {}
+        if doms and not on_guard:
+            # a private helper whose callers all pass a masked value: the identity is shown for each value the parameter can take
+            import itertools as _it
+            names_ = sorted(doms)
+            combos = list(_it.product(*[doms[n_] for n_ in names_]))
+            if len(combos) <= 64:
+                res = []
+                for combo in combos:
+                    res += site_results(fi, call, PREMISES.get(fi.fq, ()), honest_premise=not direct, bind=dict(zip(names_, combo)))
         if not res:
             rule.undecided(where, fi.fq, norm(call), "no honest path reaches this site")
             continue
